@@ -134,8 +134,8 @@ def finalQuery (base pattern caller : Values) : Values :=
 
 /-! ## scheme -/
 
-def https : Bytes := ofStr "https"
-def http : Bytes := ofStr "http"
+def https : Bytes := [104, 116, 116, 112, 115]   -- "https"
+def http : Bytes := [104, 116, 116, 112]          -- "http"
 
 def selectScheme (schemes : List Bytes) : Bytes :=
   match schemes with
